@@ -98,10 +98,20 @@ func (w *simWriter) Write(p []byte) (int, error) {
 // ---------------------------------------------------------------- parse
 
 type parsed struct {
-	out  string // error / panic text, "" if Parse returned
-	errs string // reported errors, one per line
-	root ast.Vertex
-	src  []byte // the private buffer every token aliases
+	out     string // error / panic text, "" if Parse returned
+	errs    string // reported errors, one per line, rendered right after Parse
+	errList []*perrors.Error
+	root    ast.Vertex
+	src     []byte // the private buffer every token aliases
+}
+
+// renderErrs renders the retained error objects again (they must stay valid).
+func renderErrs(list []*perrors.Error) string {
+	var b []byte
+	for _, e := range list {
+		b = appendErr(b, e)
+	}
+	return string(b)
 }
 
 var sharedVersions = map[string]*version.Version{}
@@ -161,11 +171,8 @@ func doParse(in *scn.Input, share bool) (p parsed) {
 		p.out = "ERR " + err.Error()
 		return
 	}
-	var b []byte
-	for _, e := range errs {
-		b = appendErr(b, e)
-	}
-	p.errs = string(b)
+	p.errList = errs
+	p.errs = renderErrs(errs)
 	p.root = root
 	if root != nil && reflect.ValueOf(root).IsNil() {
 		p.root = nil
@@ -189,11 +196,24 @@ type opResult struct {
 // writer. srcLen sizes the step budget.
 func doOp(kind string, root ast.Vertex, srcLen int, fault *scn.WFault) (res opResult) {
 	w := &simWriter{fault: fault}
+	rec := &recorder{abortAt: -1}
+	if kind == "traverse" && fault != nil {
+		rec.abortAt, w.fault = fault.At, nil
+	}
 	defer func() {
 		zzsim.BeginOp(zzsim.Inf)
 		res.calls = w.calls
+		if kind == "traverse" {
+			res.calls = rec.n
+		}
 		if r := recover(); r != nil {
 			res.panicked = true
+			if rec.aborted {
+				res.faulted = true
+				res.prefix = rec.acc
+				res.out = string(rec.buf)
+				return
+			}
 			if w.fired {
 				// the fault made the operation abort: only the prefix counts
 				res.faulted = true
@@ -217,9 +237,8 @@ func doOp(kind string, root ast.Vertex, srcLen int, fault *scn.WFault) (res opRe
 	case "dumpTP":
 		dumper.NewDumper(w).WithTokens().WithPositions().Dump(root)
 	case "traverse":
-		r := &recorder{}
-		traverser.NewTraverser(r).Traverse(root)
-		w.buf = r.buf
+		traverser.NewTraverser(rec).Traverse(root)
+		w.buf = rec.buf
 	case "resolve":
 		r := nsresolver.NewNamespaceResolver()
 		traverser.NewTraverser(r).Traverse(root)
@@ -239,11 +258,19 @@ func doOp(kind string, root ast.Vertex, srcLen int, fault *scn.WFault) (res opRe
 // recorder is the passive visitor; its per-node methods are generated from the
 // working tree's ast.Visitor interface (recorder_gen.go).
 type recorder struct {
-	buf []byte
-	n   int
+	buf     []byte
+	n       int
+	abortAt int // -1: never; otherwise panic when visiting node number abortAt
+	aborted bool
+	acc     int
 }
 
 func (r *recorder) visit(kind string, n ast.Vertex) {
+	if r.n == r.abortAt && !r.aborted {
+		r.aborted = true
+		r.acc = len(r.buf)
+		panic(injectedPanic{})
+	}
 	r.n++
 	r.buf = append(r.buf, kind...)
 	if n == nil || reflect.ValueOf(n).IsNil() {
